@@ -118,32 +118,57 @@ def rrH : Handler := fun inp impl => do
     else (if picks ≥ N then "weighted-cycles" else "weighted-partial")
   return ({ model := model, agree := agree, spec := spec, nontrivial := decide (picks ≥ 2), tag := tag } : Verdict).toJson
 
-/-! ### c06.redirect -/
+/-! ### c06.redirect
 
-def rdPrefix (form : Nat) : String := if form == 2 then "https://to.example/new" else "https://to.example"
+The model's `build` is a parameter; the driver instantiates it with what the implementation answers to the same
+request on a freshly built table that has seen nothing else (`alone_*`, shipped by the harness).  The repaired
+model program hands request `k` exactly `build k`; the specification demands the same of the implementation:
+the answer to request `k` in the sequence equals the answer to request `k` alone. -/
+
+def rdClass (tmpl : Nat) : String :=
+  if tmpl ≤ 2 then "path-only" else if tmpl ≤ 4 then "host-only" else if tmpl == 7 then "fixed" else "host+path"
+
+def rdSimplePrefix (tmpl : Nat) : String := if tmpl == 2 then "https://to.example/new" else "https://to.example"
 
 def rdH : Handler := fun inp impl => do
-  let form ← inp.getObjValAs? Nat "form"
-  let paths ← inp.getObjValAs? (Array String) "paths"
-  let query := ((inp.getObjValAs? (Array String) "query").toOption.getD #[])
+  let tmpl ← inp.getObjValAs? Nat "tmpl"
+  let src := getNatD inp "src"
+  let strip := (inp.getObjValAs? String "strip").toOption.getD ""
+  let prepend := (inp.getObjValAs? String "prepend").toOption.getD ""
+  let reqs := ((inp.getObjVal? "reqs").toOption.bind (fun j => j.getArr?.toOption)).getD #[]
+  let n := reqs.size
   let ci := canonImpl impl
-  let n := paths.size
-  let locOf (q : Nat) : String :=
-    let qs := query.getD q ""
-    rdPrefix form ++ paths.getD q "" ++ (if qs == "" then "" else "?" ++ qs)
-  -- requests are identified by their index; the URL builder is the identity on identities
+  let implArr := (ci.getArr?.toOption.getD #[])
+  let str (j : Json) (k : String) : String := (j.getObjValAs? String k).toOption.getD ""
+  -- requests are identified by their index; `build` = the isolated answer to that request
   let (_, lR) := runSeq (rdThreadRepaired id (List.range n)).steps {} {}
   let (_, lC) := runSeq (rdThreadCurrent id (List.range n)).steps {} {}
   let formsAgree := lR.locs == lC.locs
+  let answer (code : Nat) (loc : String) : Json := Json.mkObj [("code", code), ("location", loc)]
   let model := Json.arr (lR.locs.map (fun (_, loc) =>
-    Json.mkObj [("code", (301 : Nat)), ("location", Json.str (match loc with | some q => locOf q | none => ""))])).toArray
-  let agree := formsAgree && model == ci
-  let implArr := (ci.getArr?.toOption.getD #[]).toList
-  let spec := implArr.length == n && (implArr.zip (List.range n)).all (fun (j, q) =>
-    (j.getObjValAs? String "location").toOption == some (locOf q) && getNatD j "code" == 301)
-  let withQuery := query.toList.any (· != "")
-  let tag := if !formsAgree then "model-forms-differ" else s!"form{form}" ++ (if withQuery then "+query" else "")
-  return ({ model := model, agree := agree, spec := spec, nontrivial := decide (n ≥ 2), tag := tag } : Verdict).toJson
+    match loc with
+    | some q => let a := implArr.getD q Json.null; answer (getNatD a "alone_code") (str a "alone_location")
+    | none => Json.null)).toArray
+  let got := Json.arr (implArr.map (fun a => answer (getNatD a "code") (str a "location")))
+  let agree := formsAgree && implArr.size == n && model == got
+  -- closed form for the simplest class (plain path templates, no options, no escapes): prefix ++ path ++ ?query
+  let simple := tmpl ≤ 2 && src == 0 && strip == "" && prepend == ""
+  let closedOK := (implArr.toList.zip reqs.toList).all (fun (a, q) =>
+    let path := str q "path"
+    let qs := str q "query"
+    !simple || path.toList.contains '%' ||
+      (str a "location" == rdSimplePrefix tmpl ++ (if path == "/" && tmpl == 1 then "/" else path) ++ (if qs == "" then "" else "?" ++ qs)
+        && getNatD a "code" == 301))
+  let isolated := implArr.size == n && implArr.all (fun a =>
+    str a "location" == str a "alone_location" && getNatD a "code" == getNatD a "alone_code")
+  let spec := isolated && closedOK
+  let hosts := (reqs.toList.map (fun q => str q "host")).eraseDups.length
+  let paths := (reqs.toList.map (fun q => str q "path")).eraseDups.length
+  let cls := rdClass tmpl ++ (if strip != "" then "+strip" else "") ++ (if prepend != "" then "+prepend" else "")
+  let tag := if !formsAgree then "model-forms-differ" else if !isolated then "cross-request:" ++ cls
+    else if !closedOK then "closed-form:" ++ cls else cls
+  return ({ model := model, agree := agree, spec := spec,
+            nontrivial := decide (n ≥ 2) && (decide (hosts ≥ 2) || decide (paths ≥ 2)), tag := tag } : Verdict).toJson
 
 /-! ### race streams -/
 
